@@ -91,4 +91,35 @@ pub fn children_idx_vec<N, const K: usize>(t: &Tree<N, K>, idx: usize) -> (r: Ve
     assert(kid_idx(node.children, K as int) =~= Seq::<usize>::empty());
     v
 }
+
+// rule I7 (loop form): `for ed in T.children(I)[.rev()]` iterates the existing children as edges in ascending label order
+pub fn children_vec<N, const K: usize>(t: &Tree<N, K>, idx: usize) -> (r: Vec<Edge>)
+    requires t.arena@.dom().contains(idx)
+    ensures r@.len() == kid_seq(t.arena@[idx].children, 0).len(),
+        forall|j: int| 0 <= j < r@.len() ==> (#[trigger] r@[j]).source_idx == idx
+            && r@[j].label == kid_seq(t.arena@[idx].children, 0)[j].0 && r@[j].target_idx == kid_seq(t.arena@[idx].children, 0)[j].1
+{
+    let node = t.arena.get(idx).unwrap();
+    let mut v: Vec<Edge> = Vec::new();
+    let mut i: usize = 0;
+    let ghost full = kid_seq(node.children, 0);
+    while i < K
+        invariant 0 <= i <= K, t.arena@.dom().contains(idx), *node == t.arena@[idx], full == kid_seq(node.children, 0),
+            v@.len() + kid_seq(node.children, i as int).len() == full.len(),
+            forall|j: int| 0 <= j < v@.len() ==> (#[trigger] v@[j]).source_idx == idx && v@[j].label == full[j].0 && v@[j].target_idx == full[j].1,
+            forall|j: int| 0 <= j < kid_seq(node.children, i as int).len() ==> #[trigger] kid_seq(node.children, i as int)[j] == full[v@.len() + j],
+        decreases K - i
+    {
+        if let Some(c) = node.children[i] {
+            let ghost ks = kid_seq(node.children, i as int);
+            let ghost kn = kid_seq(node.children, i as int + 1);
+            assert(ks == seq![(i, c)] + kn);
+            assert(ks[0] == (i, c));
+            assert forall|j: int| 0 <= j < kn.len() implies #[trigger] kn[j] == full[v@.len() + 1 + j] by { assert(kn[j] == ks[j + 1]); }
+            v.push(Edge { source_idx: idx, label: i, target_idx: c });
+        }
+        i += 1;
+    }
+    v
+}
 // ---- end tree_helpers ----
